@@ -2,6 +2,7 @@ package rules
 
 import (
 	"go/ast"
+	"go/constant"
 	"go/token"
 	"go/types"
 	"sort"
@@ -124,7 +125,7 @@ var c01Idioms = []idiom{
 }
 
 func checkC01(r *core.Run) {
-	r.Explain = "Decided statically for every CFG path of the anchored functions: (C01.flush) no error of the statements that write the undo log in phase one (FlushUndoLog / InsertUndoLog implementations) is dropped, overwritten or turned into nil — a branch whose undo log was not written must not commit locally; (C01.pure) no function of the undo run consults package-level state that request paths mutate (no memo or remembered answer between rollbacks); (C01.status) the AT BranchRollback returns the 'rollbacked' status constant only where the error of UndoLogManager.RunUndo is known nil and a failure status everywhere else; (C01.errchain) every error-returning call on the call-graph chain RunUndo -> Undo -> GetUndoExecutor -> ExecuteOn (packages undo/*) is propagated or handled by an enumerated idiom, no failed call is followed by a provably-nil return, no deferred closure overwrites the named error result; (C01.tx) the sql.Tx begun by the undo routine is committed on every nil-error return and rolled back on every error return; (C01.delete) Commit is reached only after the undo-log delete (or the finished marker) succeeded; (C01.reverse) the replay loop runs after the log slice was reversed; (C01.dispatch) Insert/Delete/Update undo logs are dispatched to executors whose SQL templates are DELETE/INSERT/UPDATE. (C01.restore) a compensating statement executed inside a loop over the rows of an image is bound with values computed from that row inside the loop; NOT decided: that the replayed values equal the pre-transaction rows for any schema/value/configuration (undo(redo(db))==db), SQL text beyond the statement kind, database behaviour."
+	r.Explain = "Decided statically for every CFG path of the anchored functions: (C01.flush) no error of the statements that write the undo log in phase one (FlushUndoLog / InsertUndoLog implementations) is dropped, overwritten or turned into nil — a branch whose undo log was not written must not commit locally; (C01.flush, also) an exit of the flush that writes no undo log has passed, on their true edge, emptiness tests covering every image collection of the round — len(c)==0, a returned conjunction of such tests, or a universal predicate whose loop body answers false for an element with rows and never true before all elements were seen (evaluated for a nil element, one without rows, one with rows); (C01.pure) no function of the undo run consults package-level state that request paths mutate (no memo or remembered answer between rollbacks); (C01.status) the AT BranchRollback returns the 'rollbacked' status constant only where the error of UndoLogManager.RunUndo is known nil and a failure status everywhere else; (C01.errchain) every error-returning call on the call-graph chain RunUndo -> Undo -> GetUndoExecutor -> ExecuteOn (packages undo/*) is propagated or handled by an enumerated idiom, no failed call is followed by a provably-nil return, no deferred closure overwrites the named error result; (C01.tx) the sql.Tx begun by the undo routine is committed on every nil-error return and rolled back on every error return; (C01.delete) Commit is reached only after the undo-log delete (or the finished marker) succeeded; (C01.reverse) the replay loop runs after the log slice was reversed; (C01.dispatch) Insert/Delete/Update undo logs are dispatched to executors whose SQL templates are DELETE/INSERT/UPDATE. (C01.restore) a compensating statement executed inside a loop over the rows of an image is bound with values computed from that row inside the loop; NOT decided: that the replayed values equal the pre-transaction rows for any schema/value/configuration (undo(redo(db))==db), SQL text beyond the statement kind, database behaviour."
 	r.Trusted = []string{"go/types, go/cfg", "database/sql semantics of Tx.Commit/Rollback", "CHA resolution of interface calls over repository types"}
 	r.Assume = []string{"third-party UndoLogManager/UndoExecutor implementations are outside the claim"}
 	u := resolveUndoWorld(r, "C01.anchor")
@@ -143,6 +144,7 @@ func checkC01(r *core.Run) {
 			}
 		}
 		errDiscipline(r, "C01.flush", dedupFns(flush), c02Idioms)
+		c01SkipFlush(r, dedupFns(flush))
 		r.Floor("C01.flush", 5)
 	}
 	c01Tx(r, u, "C01")
@@ -719,4 +721,496 @@ func c01RowValues(r *core.Run) {
 	if n == 0 || execs < 3 {
 		r.Bad("C01.restore", "compensating statements executed per image row", "", "fewer undo executors / per-row statement executions than confirmed by hand")
 	}
+}
+
+// c01SkipFlush (C01.flush): the phase-one flush leaves without writing an undo log only when no recorded image holds
+// a row. A branch whose undo log was skipped although it changed rows commits locally, and its rollback finds no log,
+// leaves the marker and answers "rollbacked" with the rows still changed.
+//
+// Decided on the paths of the flush function: an exit that returns no error and has not passed the undo-log insert
+// (a skip exit) must have passed, on their true edge, emptiness tests covering every image collection of the round
+// (the RecordImages fields of the round-images struct). An emptiness test is `len(c) == 0`, or a predicate of the
+// module with a body that is (a) one returned conjunction of such tests, or (b) a universal test over the
+// collection: a loop over it that answers false for an element holding rows and does not answer true for any
+// element before all were seen (read by evaluating the loop body for the three kinds of element: nil, no rows, rows).
+func c01SkipFlush(r *core.Run, flush []*core.FuncInfo) {
+	w := r.W
+	n := 0
+	for _, f := range flush {
+		if f.Decl.Body == nil {
+			continue
+		}
+		isInsert := func(callee *types.Func) bool {
+			return callee != nil && strings.HasPrefix(callee.Name(), "InsertUndoLog") && callee != f.Obj
+		}
+		direct := false
+		for _, cs := range w.Calls(f) {
+			if isInsert(cs.Static) {
+				direct = true
+			}
+			for _, d := range cs.Callees {
+				if isInsert(d) {
+					direct = true
+				}
+			}
+		}
+		if !direct {
+			continue // hands the work to the flush of another manager
+		}
+		// the collections of the round: RecordImages-typed fields of the struct the images are read from
+		var need []*types.Var
+		seenNeed := map[*types.Var]bool{}
+		ast.Inspect(f.Decl.Body, func(nd ast.Node) bool {
+			e, ok := nd.(ast.Expr)
+			if !ok {
+				return true
+			}
+			if fv := c01CollField(w, f, e, 0); fv != nil {
+				if st := c01OwnerStruct(fv); st != nil {
+					for i := 0; i < st.NumFields(); i++ {
+						if types.Identical(st.Field(i).Type(), fv.Type()) && !seenNeed[st.Field(i)] {
+							seenNeed[st.Field(i)] = true
+							need = append(need, st.Field(i))
+						}
+					}
+				}
+			}
+			return true
+		})
+		if len(need) == 0 {
+			r.Undecided("C01.flush", core.ShortKey(f.Obj)+" : image collections of the round", w.Pos(f.Decl.Pos()), "cannot find the image collections the flush reads")
+			continue
+		}
+		why := map[string]string{}
+		sp := &flow.Spec{W: w, Depth: 0,
+			Classify: func(pkg *packages.Package, call *ast.CallExpr, callee *types.Func) []flow.Tag {
+				if isInsert(callee) {
+					return []flow.Tag{"insert"}
+				}
+				return nil
+			},
+			CondTags: func(pkg *packages.Package, cond ast.Expr, branch bool) []flow.Tag {
+				if !branch {
+					return nil
+				}
+				var out []flow.Tag
+				for _, fv := range c01EmptyCover(w, f, cond, 0, why) {
+					out = append(out, "empty:"+fv.Name())
+				}
+				return out
+			}}
+		res := sp.Analyze(f)
+		r.Fn(f)
+		for _, ex := range res.Exits {
+			if ex.Class == flow.ExitErr || ex.St.Has("insert") {
+				continue
+			}
+			n++
+			r.Sites++
+			var missing []string
+			for _, fv := range need {
+				if !ex.St.Has("empty:" + fv.Name()) {
+					m := fv.Name()
+					if y := why[fv.Name()]; y != "" {
+						m += " (" + y + ")"
+					}
+					missing = append(missing, m)
+				}
+			}
+			role := exitRole(ex, func(t string) bool { return strings.HasPrefix(t, "empty:") })
+			r.Check(len(missing) == 0, "C01.flush", core.ShortKey(f.Obj)+" "+role+" : no undo log only when no image holds a row", w.Pos(ex.Pos),
+				"every image collection tested empty (all elements) on the way to this return",
+				"this return writes no undo log although "+strings.Join(missing, ", ")+" was not shown to hold no row: a branch that changed rows commits without an undo log, and its rollback answers 'rollbacked' with the rows still changed")
+		}
+	}
+	if n == 0 {
+		r.Undecided("C01.flush", "INSTANCE-FLOOR C01.flush skip exits", "", "the flush has no exit that skips the undo log (the pinned tree has two: nothing recorded / only empty images)")
+	}
+}
+
+func c01OwnerStruct(fv *types.Var) *types.Struct {
+	if fv.Pkg() == nil {
+		return nil
+	}
+	sc := fv.Pkg().Scope()
+	for _, nm := range sc.Names() {
+		tn, ok := sc.Lookup(nm).(*types.TypeName)
+		if !ok {
+			continue
+		}
+		st, ok := tn.Type().Underlying().(*types.Struct)
+		if !ok {
+			continue
+		}
+		for i := 0; i < st.NumFields(); i++ {
+			if st.Field(i) == fv {
+				return st
+			}
+		}
+	}
+	return nil
+}
+
+func c01IsImages(t types.Type) bool {
+	if t == nil {
+		return false
+	}
+	n, ok := t.(*types.Named)
+	return ok && n.Obj().Name() == "RecordImages" && n.Obj().Pkg() != nil && strings.HasSuffix(n.Obj().Pkg().Path(), "pkg/datasource/sql/types")
+}
+
+// c01CollField: the RecordImages field an expression denotes: x.f, a getter whose body is `return r.f`, or a local
+// variable assigned once from one of these
+func c01CollField(w *core.World, f *core.FuncInfo, e ast.Expr, depth int) *types.Var {
+	if depth > 3 {
+		return nil
+	}
+	info := f.Pkg.TypesInfo
+	if !c01IsImages(info.TypeOf(e)) {
+		return nil
+	}
+	switch x := ast.Unparen(e).(type) {
+	case *ast.SelectorExpr:
+		if fv, ok := info.Uses[x.Sel].(*types.Var); ok && fv.IsField() {
+			return fv
+		}
+	case *ast.CallExpr:
+		g := w.Info(core.Callee(info, x))
+		if g == nil || g.Decl.Body == nil || len(g.Decl.Body.List) != 1 {
+			return nil
+		}
+		if rs, ok := g.Decl.Body.List[0].(*ast.ReturnStmt); ok && len(rs.Results) == 1 {
+			return c01CollField(w, g, rs.Results[0], depth+1)
+		}
+	case *ast.Ident:
+		if v, ok := info.Uses[x].(*types.Var); ok && !v.IsField() {
+			if defs := localDefs(f, v); len(defs) == 1 && defs[0].idx < 0 && !defs[0].rng {
+				return c01CollField(w, f, defs[0].rhs, depth+1)
+			}
+		}
+	}
+	return nil
+}
+
+// c01EmptyCover: the collections the condition, when true, shows to hold no row
+func c01EmptyCover(w *core.World, f *core.FuncInfo, cond ast.Expr, depth int, why map[string]string) []*types.Var {
+	if depth > 3 {
+		return nil
+	}
+	info := f.Pkg.TypesInfo
+	switch x := ast.Unparen(cond).(type) {
+	case *ast.BinaryExpr:
+		switch x.Op {
+		case token.LAND:
+			return append(c01EmptyCover(w, f, x.X, depth, why), c01EmptyCover(w, f, x.Y, depth, why)...)
+		case token.EQL:
+			// len(c) == 0
+			if c, ok := ast.Unparen(x.X).(*ast.CallExpr); ok && len(c.Args) == 1 {
+				if id, ok := ast.Unparen(c.Fun).(*ast.Ident); ok && id.Name == "len" {
+					if v := core.ConstVal(info, x.Y); v != nil && v.Kind() == constant.Int && v.String() == "0" {
+						if fv := c01CollField(w, f, c.Args[0], 0); fv != nil {
+							return []*types.Var{fv}
+						}
+					}
+				}
+			}
+		}
+	case *ast.CallExpr:
+		g := w.Info(core.Callee(info, x))
+		if g == nil || g.Decl.Body == nil {
+			return nil
+		}
+		// (a) one returned conjunction of emptiness tests (on the fields of the receiver)
+		if len(g.Decl.Body.List) == 1 {
+			if rs, ok := g.Decl.Body.List[0].(*ast.ReturnStmt); ok && len(rs.Results) == 1 {
+				return c01EmptyCover(w, g, rs.Results[0], depth+1, why)
+			}
+		}
+		// (b) a universal test over the receiver / the collection handed in
+		var coll ast.Expr
+		if sel, ok := ast.Unparen(x.Fun).(*ast.SelectorExpr); ok && g.Decl.Recv != nil && c01IsImages(info.TypeOf(sel.X)) {
+			coll = sel.X
+		} else {
+			for _, a := range x.Args {
+				if c01IsImages(info.TypeOf(a)) {
+					coll = a
+				}
+			}
+		}
+		if coll == nil {
+			return nil
+		}
+		fv := c01CollField(w, f, coll, 0)
+		if fv == nil {
+			return nil
+		}
+		if bad := c01UniversalEmpty(w, g); bad != "" {
+			why[fv.Name()] = core.ShortKey(g.Obj) + " " + bad
+			return nil
+		}
+		return []*types.Var{fv}
+	}
+	return nil
+}
+
+// c01UniversalEmpty returns "" when g answers true only if every element of the images collection it ranges over is
+// nil or holds no row.
+func c01UniversalEmpty(w *core.World, g *core.FuncInfo) string {
+	info := g.Pkg.TypesInfo
+	var loop *ast.RangeStmt
+	for _, st := range g.Decl.Body.List {
+		if rs, ok := st.(*ast.RangeStmt); ok && c01IsImages(info.TypeOf(rs.X)) {
+			loop = rs
+		}
+	}
+	if loop == nil || loop.Value == nil {
+		return "is not a loop over the collection"
+	}
+	elem := core.ObjOf(info, loop.Value)
+	if elem == nil {
+		return "has no element variable"
+	}
+	// statements before the loop may answer true only for the empty collection
+	for _, st := range g.Decl.Body.List {
+		if st == ast.Stmt(loop) {
+			break
+		}
+		ok := true
+		ast.Inspect(st, func(n ast.Node) bool {
+			if rs, isRet := n.(*ast.ReturnStmt); isRet && len(rs.Results) == 1 {
+				if v := core.ConstVal(info, rs.Results[0]); v == nil || v.Kind() != constant.Bool || constant.BoolVal(v) {
+					ifs, isIf := st.(*ast.IfStmt)
+					if !isIf || !c01LenZero(info, ifs.Cond) {
+						ok = false
+					}
+				}
+			}
+			return true
+		})
+		if !ok {
+			return "answers before looking at the elements (" + w.Pos(st.Pos()) + ")"
+		}
+	}
+	for _, class := range []string{"nil", "norows", "rows"} {
+		out := c01RunElem(w, g, loop.Body.List, elem, class, 0)
+		switch {
+		case out == "unknown":
+			return "has a loop body this rule cannot evaluate (" + w.Pos(loop.Body.Pos()) + ")"
+		case class == "rows" && out != "false":
+			return "does not answer false for an element that holds rows (" + w.Pos(loop.Body.Pos()) + ")"
+		case class != "rows" && out == "true":
+			return "answers true at the first element without rows, whatever the later elements hold (" + w.Pos(loop.Body.Pos()) + ")"
+		}
+	}
+	return ""
+}
+
+func c01LenZero(info *types.Info, cond ast.Expr) bool {
+	be, ok := ast.Unparen(cond).(*ast.BinaryExpr)
+	if !ok || be.Op != token.EQL {
+		return false
+	}
+	c, ok := ast.Unparen(be.X).(*ast.CallExpr)
+	if !ok || len(c.Args) != 1 {
+		return false
+	}
+	id, ok := ast.Unparen(c.Fun).(*ast.Ident)
+	v := core.ConstVal(info, be.Y)
+	return ok && id.Name == "len" && v != nil && v.String() == "0"
+}
+
+// c01RunElem evaluates the statements of the loop body for one kind of element: "true" / "false" (returned),
+// "next" (continue), "fall" (ran off the end of the statements), "unknown"
+func c01RunElem(w *core.World, g *core.FuncInfo, stmts []ast.Stmt, elem types.Object, class string, depth int) string {
+	info := g.Pkg.TypesInfo
+	for _, st := range stmts {
+		switch x := st.(type) {
+		case *ast.IfStmt:
+			if x.Init != nil {
+				return "unknown"
+			}
+			v := c01EvalElem(w, g, x.Cond, elem, class, depth)
+			var sub string
+			switch v {
+			case 1:
+				sub = c01RunElem(w, g, x.Body.List, elem, class, depth)
+			case 0:
+				switch e := x.Else.(type) {
+				case nil:
+					sub = "fall"
+				case *ast.BlockStmt:
+					sub = c01RunElem(w, g, e.List, elem, class, depth)
+				case *ast.IfStmt:
+					sub = c01RunElem(w, g, []ast.Stmt{e}, elem, class, depth)
+				}
+			default:
+				return "unknown"
+			}
+			if sub != "fall" {
+				return sub
+			}
+		case *ast.BranchStmt:
+			if x.Tok == token.CONTINUE && x.Label == nil {
+				return "next"
+			}
+			return "unknown"
+		case *ast.ReturnStmt:
+			if len(x.Results) != 1 {
+				return "unknown"
+			}
+			switch c01EvalElem(w, g, x.Results[0], elem, class, depth) {
+			case 1:
+				return "true"
+			case 0:
+				return "false"
+			}
+			return "unknown"
+		case *ast.ExprStmt, *ast.EmptyStmt:
+			// logging and the like
+		default:
+			return "unknown"
+		}
+	}
+	_ = info
+	return "fall"
+}
+
+// c01EvalElem: 1 true, 0 false, -1 unknown — for an element of the given kind
+func c01EvalElem(w *core.World, g *core.FuncInfo, e ast.Expr, elem types.Object, class string, depth int) int {
+	info := g.Pkg.TypesInfo
+	if v := core.ConstVal(info, e); v != nil && v.Kind() == constant.Bool {
+		if constant.BoolVal(v) {
+			return 1
+		}
+		return 0
+	}
+	isElem := func(x ast.Expr) bool { return core.ObjOf(info, x) == elem }
+	rowsLen := func(x ast.Expr) bool {
+		c, ok := ast.Unparen(x).(*ast.CallExpr)
+		if !ok || len(c.Args) != 1 {
+			return false
+		}
+		id, ok := ast.Unparen(c.Fun).(*ast.Ident)
+		if !ok || id.Name != "len" {
+			return false
+		}
+		sel, ok := ast.Unparen(c.Args[0]).(*ast.SelectorExpr)
+		return ok && sel.Sel.Name == "Rows" && isElem(sel.X)
+	}
+	not := func(v int) int {
+		if v < 0 {
+			return v
+		}
+		return 1 - v
+	}
+	switch x := ast.Unparen(e).(type) {
+	case *ast.UnaryExpr:
+		if x.Op == token.NOT {
+			return not(c01EvalElem(w, g, x.X, elem, class, depth))
+		}
+	case *ast.BinaryExpr:
+		switch x.Op {
+		case token.LOR:
+			a := c01EvalElem(w, g, x.X, elem, class, depth)
+			if a == 1 {
+				return 1
+			}
+			b := c01EvalElem(w, g, x.Y, elem, class, depth)
+			if a == 0 {
+				return b
+			}
+			if b == 1 {
+				return 1
+			}
+			return -1
+		case token.LAND:
+			a := c01EvalElem(w, g, x.X, elem, class, depth)
+			if a == 0 {
+				return 0
+			}
+			b := c01EvalElem(w, g, x.Y, elem, class, depth)
+			if a == 1 {
+				return b
+			}
+			if b == 0 {
+				return 0
+			}
+			return -1
+		case token.EQL, token.NEQ:
+			if isElem(x.X) && isNilIdent(info, x.Y) {
+				v := 0
+				if class == "nil" {
+					v = 1
+				}
+				if x.Op == token.NEQ {
+					v = 1 - v
+				}
+				return v
+			}
+			if rowsLen(x.X) {
+				if c := core.ConstVal(info, x.Y); c != nil && c.String() == "0" {
+					if class == "nil" {
+						return -1
+					}
+					v := 0
+					if class == "norows" {
+						v = 1
+					}
+					if x.Op == token.NEQ {
+						v = 1 - v
+					}
+					return v
+				}
+			}
+		case token.GTR:
+			if rowsLen(x.X) {
+				if c := core.ConstVal(info, x.Y); c != nil && c.String() == "0" {
+					if class == "nil" {
+						return -1
+					}
+					if class == "rows" {
+						return 1
+					}
+					return 0
+				}
+			}
+		case token.LSS:
+			if rowsLen(x.X) {
+				if c := core.ConstVal(info, x.Y); c != nil && c.String() == "1" {
+					if class == "nil" {
+						return -1
+					}
+					if class == "norows" {
+						return 1
+					}
+					return 0
+				}
+			}
+		}
+	case *ast.CallExpr:
+		// a predicate of the module on the element with one returned expression
+		h := w.Info(core.Callee(info, x))
+		if h == nil || h.Decl.Body == nil || len(h.Decl.Body.List) != 1 || depth > 1 {
+			return -1
+		}
+		rs, ok := h.Decl.Body.List[0].(*ast.ReturnStmt)
+		if !ok || len(rs.Results) != 1 {
+			return -1
+		}
+		var sub types.Object
+		if sel, ok := ast.Unparen(x.Fun).(*ast.SelectorExpr); ok && isElem(sel.X) {
+			sub = recvVarOf(h)
+		} else {
+			for i, a := range x.Args {
+				if isElem(a) && i < len(paramObjs(h)) {
+					sub = paramObjs(h)[i]
+				}
+			}
+		}
+		if sub == nil {
+			return -1
+		}
+		return c01EvalElem(w, h, rs.Results[0], sub, class, depth+1)
+	}
+	return -1
 }
